@@ -1,3 +1,250 @@
-/- Property theorems for C10 — to be filled in. -/
+/-
+  C10 — Recovery sweeps: harmless on healthy workflows, idempotent after a crash.
+
+  `Stab.Engine.sweepMsgs` models `WorkflowRecovery._recover_workflow` (one transaction that only pushes
+  messages).  Theorems: what a sweep can and cannot do in ANY state, and that a second sweep right after a
+  first one re-queues no task work.  That the pushed StartStage messages are inert or the missing driver
+  is the status-guard part of C02/C03; outcome preservation on whole runs is validated by the harness.
+-/
+import Stab.Lemmas.EngineGood
+
 namespace Stab.Props.C10
+open Stab Stab.Engine
+
+/-- A sweep only adds messages: no stage, task or workflow row, no processed mark, no execution. -/
+theorem sweep_only_pushes (c : Cfg) (s : State) :
+    (step c s .sweep).stages = s.stages ∧ (step c s .sweep).wfStatus = s.wfStatus ∧
+    (step c s .sweep).canceled = s.canceled ∧ (step c s .sweep).ledger = s.ledger ∧
+    (step c s .sweep).processed = s.processed ∧ (step c s .sweep).audit = s.audit := by
+  have key : ∀ (ms : List Msg) (s : State),
+      (applyTxn s (ms.map Eff.push)).stages = s.stages ∧ (applyTxn s (ms.map Eff.push)).wfStatus = s.wfStatus ∧
+      (applyTxn s (ms.map Eff.push)).canceled = s.canceled ∧ (applyTxn s (ms.map Eff.push)).ledger = s.ledger ∧
+      (applyTxn s (ms.map Eff.push)).processed = s.processed ∧ (applyTxn s (ms.map Eff.push)).audit = s.audit := by
+    intro ms
+    induction ms with
+    | nil => intro s; simp [applyTxn]
+    | cons m ms ih =>
+      intro s
+      have := ih (applyEff s (.push m))
+      simpa [applyTxn, List.foldl, applyEff] using this
+  exact key _ s
+
+/-- the queue after a sweep: the old rows, then one fresh row per swept message -/
+theorem sweep_queue (c : Cfg) (s : State) :
+    ((step c s .sweep).queue.map (·.msg)) = s.queue.map (·.msg) ++ sweepMsgs c s := by
+  have key : ∀ (ms : List Msg) (s : State),
+      ((applyTxn s (ms.map Eff.push)).queue.map (·.msg)) = s.queue.map (·.msg) ++ ms := by
+    intro ms
+    induction ms with
+    | nil => intro s; simp [applyTxn]
+    | cons m ms ih =>
+      intro s
+      have := ih (applyEff s (.push m))
+      simp only [applyTxn, List.map_cons, List.foldl] at this ⊢
+      rw [this]
+      simp [applyEff]
+  exact key _ s
+
+/-- what one re-queued stage contributes: RunTask only for RUNNING tasks of a RUNNING stage, StartTask only for the
+    first NOT_STARTED task of a RUNNING stage with no RUNNING task, both only when NO message for that task is
+    queued; otherwise a StartStage.  Nothing else. -/
+theorem sweepStage_guarded (s : State) (i : Nat) (m : Msg) (hm : m ∈ sweepStage s i) :
+    (∃ t, m = .runTask i t ∧ (s.stage i).status = .running ∧ ((s.stage i).tasks.getD t default).status = .running ∧
+          hasPendingForTask s i t = false) ∨
+    (∃ t, m = .startTask i t ∧ (s.stage i).status = .running ∧ ((s.stage i).tasks.getD t default).status = .notStarted ∧
+          hasPendingForTask s i t = false) ∨
+    m = .startStage i 0 := by
+  unfold sweepStage at hm
+  simp only [] at hm
+  split at hm
+  · rename_i hrun
+    have hrun' : (s.stage i).status = .running := by simpa using hrun
+    split at hm
+    · simp only [List.mem_map, List.mem_filter, List.mem_range] at hm
+      obtain ⟨t, ⟨⟨_, ht⟩, hp⟩, rfl⟩ := hm
+      exact Or.inl ⟨t, rfl, hrun', by simpa using ht, by simpa using hp⟩
+    · split at hm
+      · split at hm
+        · rename_i t hhead
+          split at hm
+          · cases hm
+          · rename_i hp
+            simp only [List.mem_singleton] at hm; subst hm
+            have hmem := List.mem_of_mem_head? hhead
+            simp only [List.mem_filter, List.mem_range] at hmem
+            exact Or.inr (Or.inl ⟨t, rfl, hrun', by simpa using hmem.2, by simpa using hp⟩)
+        · cases hm
+      · simp only [List.mem_singleton] at hm; exact Or.inr (Or.inr hm)
+  · simp only [List.mem_singleton] at hm; exact Or.inr (Or.inr hm)
+
+/-- **A sweep pushes only guarded messages** (in ANY state): StartWorkflow / StartStage, or a task message for a
+    task that has no message in the queue.  Never a completion, cancel, skip or jump message. -/
+theorem sweep_pushes_only_guarded (c : Cfg) (s : State) (m : Msg) (hm : m ∈ sweepMsgs c s) :
+    m = .startWorkflow ∨ ∃ i, m ∈ sweepStage s i := by
+  unfold sweepMsgs at hm
+  simp only [] at hm
+  split at hm
+  · cases hm
+  · split at hm
+    · split at hm
+      · simp only [List.mem_singleton] at hm; exact Or.inl hm
+      · cases hm
+    · simp only [List.mem_flatMap] at hm
+      obtain ⟨i, _, hi⟩ := hm
+      exact Or.inr ⟨i, hi⟩
+
+/-- the per-stage contribution depends on the state only through that stage's row and the pending-message guard;
+    with more messages pending it can only shrink to the ones whose task has no pending message -/
+theorem sweepStage_after (s s' : State) (i : Nat) (hst : s'.stage i = s.stage i)
+    (m : Msg) (hm : m ∈ sweepStage s' i) :
+    m ∈ sweepStage s i ∨ m = .startStage i 0 ∨
+      (∃ t, (m = .runTask i t ∨ m = .startTask i t) ∧ hasPendingForTask s i t = true) := by
+  unfold sweepStage at hm ⊢
+  simp only [hst] at hm ⊢
+  split
+  · rename_i hrun
+    simp only [hrun, ↓reduceIte] at hm
+    split
+    · rename_i hr
+      simp only [hr, ↓reduceIte, List.mem_map, List.mem_filter] at hm ⊢
+      obtain ⟨t, ⟨ht, hp'⟩, rfl⟩ := hm
+      by_cases hp : hasPendingForTask s i t = true
+      · exact Or.inr (Or.inr ⟨t, Or.inl rfl, hp⟩)
+      · exact Or.inl ⟨t, ⟨ht, by simpa using hp⟩, rfl⟩
+    · rename_i hr
+      simp only [hr, Bool.false_eq_true, ↓reduceIte] at hm
+      split
+      · rename_i hn
+        simp only [hn, ↓reduceIte] at hm
+        split
+        · rename_i t hhead
+          simp only [hhead] at hm
+          split at hm
+          · cases hm
+          · simp only [List.mem_singleton] at hm; subst hm
+            by_cases hp : hasPendingForTask s i t = true
+            · exact Or.inr (Or.inr ⟨t, Or.inr rfl, hp⟩)
+            · left; simp [hp]
+        · rename_i hhead
+          simp only [hhead] at hm
+          cases hm
+      · rename_i hn
+        simp only [hn, Bool.false_eq_true, ↓reduceIte, List.mem_singleton] at hm
+        exact Or.inr (Or.inl hm)
+  · rename_i hrun
+    simp only [hrun, Bool.false_eq_true, ↓reduceIte, List.mem_singleton] at hm
+    exact Or.inr (Or.inl hm)
+
+/-- **Second sweep right after the first re-queues no task work**: every RunTask / StartTask the first sweep
+    pushed — or skipped because a message was already queued — is pending now, so `has_pending_message_for_task`
+    suppresses it.  Only StartStage / StartWorkflow can be pushed twice; their handlers' status guards and the claim
+    CAS absorb them (C02/C03/C04). -/
+theorem sweep_twice_no_task_messages (c : Cfg) (s : State) (m : Msg)
+    (hm : m ∈ sweepMsgs c (step c s .sweep)) : (∀ i t, m ≠ .runTask i t) ∧ (∀ i t, m ≠ .startTask i t) := by
+  have h1 := sweep_only_pushes c s
+  have hq := sweep_queue c s
+  have hstage : ∀ i, (step c s .sweep).stage i = s.stage i := by intro i; simp [State.stage, h1.1]
+  have inq : ∀ m', m' ∈ s.queue.map (·.msg) ++ sweepMsgs c s → ∃ r ∈ (step c s .sweep).queue, r.msg = m' := by
+    intro m' h
+    rw [← hq] at h
+    obtain ⟨r, hr, he⟩ := List.mem_map.mp h
+    exact ⟨r, hr, he⟩
+  have pend_mono : ∀ i t, hasPendingForTask s i t = true → hasPendingForTask (step c s .sweep) i t = true := by
+    intro i t h
+    unfold hasPendingForTask at h ⊢
+    simp only [List.any_eq_true] at h ⊢
+    obtain ⟨r, hr, hr'⟩ := h
+    obtain ⟨r2, hr2, he⟩ := inq r.msg (List.mem_append_left _ (List.mem_map_of_mem hr))
+    exact ⟨r2, hr2, by rw [he]; exact hr'⟩
+  have pushed_pending : ∀ i t, (.runTask i t ∈ sweepMsgs c s ∨ .startTask i t ∈ sweepMsgs c s) →
+      hasPendingForTask (step c s .sweep) i t = true := by
+    intro i t h
+    unfold hasPendingForTask
+    simp only [List.any_eq_true]
+    rcases h with h | h
+    · obtain ⟨r2, hr2, he⟩ := inq _ (List.mem_append_right _ h)
+      exact ⟨r2, hr2, by rw [he]; simp⟩
+    · obtain ⟨r2, hr2, he⟩ := inq _ (List.mem_append_right _ h)
+      exact ⟨r2, hr2, by rw [he]; simp⟩
+  -- where does `m` come from in the second sweep?
+  have hsrc : m = .startWorkflow ∨ ∃ i, i ∈ sweepRequeue c (step c s .sweep) ∧ m ∈ sweepStage (step c s .sweep) i := by
+    unfold sweepMsgs at hm
+    simp only [] at hm
+    split at hm
+    · cases hm
+    · split at hm
+      · split at hm
+        · simp only [List.mem_singleton] at hm; exact Or.inl hm
+        · cases hm
+      · simp only [List.mem_flatMap] at hm
+        obtain ⟨i, hi1, hi2⟩ := hm
+        exact Or.inr ⟨i, hi1, hi2⟩
+  rcases hsrc with rfl | ⟨i, hreq, hmi⟩
+  · constructor <;> intro i t h <;> cases h
+  · -- `m` is a task message of stage i in the second sweep: the guard says nothing is pending for it …
+    have hg := sweepStage_guarded (step c s .sweep) i m hmi
+    -- … but the first sweep already covered that task
+    have hreq1 : i ∈ sweepRequeue c s := by
+      unfold sweepRequeue at hreq ⊢
+      simp only [List.mem_filter] at hreq ⊢
+      refine ⟨hreq.1, ?_⟩
+      have : canStart c (step c s .sweep) i = canStart c s i := by
+        unfold canStart; simp only [hstage]
+      simpa [hstage, this] using hreq.2
+    have hwf : ¬ ((!(s.wfStatus == .running || s.wfStatus == .notStarted)) = true) := by
+      intro hw
+      unfold sweepMsgs at hm
+      simp only [h1.2.1, hw, ↓reduceIte] at hm
+      cases hm
+    have first_has : ∀ m', m' ∈ sweepStage s i → m' ∈ sweepMsgs c s := by
+      intro m' hm'
+      unfold sweepMsgs
+      simp only [hwf, ↓reduceIte]
+      have hne : (sweepRequeue c s).isEmpty = false := by
+        cases hr : sweepRequeue c s with
+        | nil => rw [hr] at hreq1; cases hreq1
+        | cons _ _ => rfl
+      simp only [hne, Bool.false_eq_true, ↓reduceIte, List.mem_flatMap]
+      exact ⟨i, hreq1, hm'⟩
+    have contra : ∀ t, (m = .runTask i t ∨ m = .startTask i t) → hasPendingForTask (step c s .sweep) i t = false → False := by
+      intro t hmt hfalse
+      rcases sweepStage_after s (step c s .sweep) i (hstage i) m hmi with h | h | ⟨t', ht', hp⟩
+      · have := first_has m h
+        have hp := pushed_pending i t (by rcases hmt with rfl | rfl; exact Or.inl this; exact Or.inr this)
+        rw [hp] at hfalse; cases hfalse
+      · rcases hmt with rfl | rfl <;> cases h
+      · have : t' = t := by rcases hmt with rfl | rfl <;> rcases ht' with h | h <;> cases h <;> rfl
+        subst this
+        rw [pend_mono i t' hp] at hfalse; cases hfalse
+    refine ⟨?_, ?_⟩
+    · intro i' t' h
+      rcases hg with ⟨t, hmt, _, _, hp⟩ | ⟨t, hmt, _, _, _⟩ | hmt
+      · exact contra t (Or.inl hmt) hp
+      · rw [hmt] at h; cases h
+      · rw [hmt] at h; cases h
+    · intro i' t' h
+      rcases hg with ⟨t, hmt, _, _, _⟩ | ⟨t, hmt, _, _, hp⟩ | hmt
+      · rw [hmt] at h; cases h
+      · exact contra t (Or.inr hmt) hp
+      · rw [hmt] at h; cases h
+
+/-- a sweep never runs a task and never changes a status: the ledger and the audit trail are untouched, so a
+    sweep by itself "makes no task execute an extra time"; extra executions could only come from the messages it
+    pushes, and those are guarded as stated above -/
+theorem sweep_no_execution_no_write (c : Cfg) (s : State) :
+    (step c s .sweep).ledger = s.ledger ∧ (step c s .sweep).audit = s.audit :=
+  ⟨(sweep_only_pushes c s).2.2.2.1, (sweep_only_pushes c s).2.2.2.2.2⟩
+
+-- non-vacuity: after a crash between StartTask's commit and its ack nothing is pending for the RUNNING task … a sweep
+-- re-queues exactly one RunTask, a second sweep nothing
+def demoStage : StageCfg :=
+  { reqs := [], join := JoinType.and, threshold := 0, cont := false, failp := true, enabled := none,
+    maxj := none, tasks := [[Outcome.succ]] }
+def demoCfg : Cfg := { wfMaxj := none, stages := [demoStage] }
+def lostRunTask : State :=
+  ackRow (run demoCfg [Op.deliver 1, Op.deliver 2, Op.deliver 3]) 4   -- the RunTask row is lost
+
+example : sweepMsgs demoCfg lostRunTask = [Msg.runTask 0 0] := by decide
+example : sweepMsgs demoCfg (step demoCfg lostRunTask .sweep) = [] := by decide
+
 end Stab.Props.C10
